@@ -99,7 +99,15 @@ type CoverSpec struct {
 	Line   int
 }
 
+type JournalPair struct {
+	Mutator string
+	Entry   string
+	Props   []string
+	Line    int
+}
+
 type SpecFile struct {
+	Journal   []*JournalPair
 	Immutable []string
 	ImmProps  []string
 	Covers    []*CoverSpec
@@ -366,6 +374,14 @@ func parseSpecFile(path, pkg string) (*SpecFile, error) {
 			}
 			cur.FuncName = strings.TrimSpace(name)
 			sf.Contracts = append(sf.Contracts, cur)
+		case "journal":
+			// journal [props] <mutator> <entryType>
+			props, rest := parseProps(p.text)
+			fs := strings.Fields(rest)
+			if len(fs) != 2 {
+				return nil, fmt.Errorf("%s:%d: journal <mutator> <entryType>", path, p.line)
+			}
+			sf.Journal = append(sf.Journal, &JournalPair{Mutator: fs[0], Entry: fs[1], Props: props, Line: p.line})
 		case "immutable":
 			// immutable [props] v1 v2 ... : package-level variables assigned only by the initialiser
 			props, rest := parseProps(p.text)
